@@ -227,6 +227,16 @@ fn case(t: &mut Tape, ty: Ty, d: usize) -> Expr {
     Expr::Case(bs)
 }
 
+/// The same trees under the dialects SQLite is not: their SQL is executed on SQLite whenever SQLite
+/// accepts the text (operators, CASE, COALESCE, TRUNC / ROUND / ABS / SIGN / POW / MOD mean the same
+/// there); a statement SQLite cannot prepare is not judged. `/` is left out (it is the engine's
+/// division in most dialects).
+pub fn gen_case_other_dialect(t: &mut Tape) -> Case {
+    let mut c = gen_case(t);
+    c.target = t.pick(&["postgres", "duckdb", "glaredb", "mysql", "mssql", "clickhouse", "bigquery", "snowflake", "ansi", "redshift"]).to_string();
+    c
+}
+
 pub fn gen_case(t: &mut Tape) -> Case {
     let target = if t.chance(1, 2) { "generic" } else { "sqlite" }.to_string();
     let ty = *t.pick(&[Ty::Int, Ty::Bool, Ty::Float, Ty::Int, Ty::Bool, Ty::Text]);
@@ -267,7 +277,7 @@ fn std_leaf(ty: Ty, k: usize) -> Expr {
 
 pub fn triples() -> Vec<Case> {
     let mut out = vec![];
-    for target in ["sqlite", "generic"] {
+    for target in ["sqlite", "generic", "postgres"] {
         for &p in ALL_BINOPS {
             for &c in ALL_BINOPS {
                 for side in 0..2 {
@@ -519,7 +529,7 @@ pub fn check(case: &Case, known: &Known, db: &Db) -> Outcome {
     let src = format!("from v | select {{id, r = {text}}}");
     let dialect = util::dialect_by_name(&case.target);
     // generic emits the engine's `/`: integer / integer is not executable faithfully on SQLite
-    if case.target == "generic" {
+    if case.target != "sqlite" {
         let mut int_div = false;
         case.expr.walk(&mut |x| {
             if let Expr::Bin(BinOp::DivF, ..) = x {
@@ -577,7 +587,7 @@ pub fn check(case: &Case, known: &Known, db: &Db) -> Outcome {
         Ok(r) => r,
         Err(e) => {
             let m = e.msg().to_string();
-            if case.target == "generic" && (m.contains("no such function") || m.contains("near \"")) && !m.contains("incomplete") {
+            if case.target != "sqlite" && (m.contains("no such function") || m.contains("near \"") || m.contains("unrecognized token") || m.contains("wrong number of arguments")) && !m.contains("incomplete") {
                 return Outcome::skip("generic_not_executable").class("generic_not_executable");
             }
             // evaluate once so that `touched` is filled for attribution
@@ -702,6 +712,7 @@ pub fn run(ctx: &Ctx) -> i32 {
         gen_case,
         |c| check(c, &ctx.known, &db),
     );
+    ctx.tape_search("random-trees/other-dialects-on-sqlite", ctx.n(12_000, 300_000), 200, gen_case_other_dialect, |c| check(c, &ctx.known, &db));
     ctx.finish(
         "(1) every type-correct (parent operator, child operator, left|right) combination of the 16 executable binary operators over column/literal leaves, plus each under a unary operator and inside a larger context, printed with the parentheses the documented precedence table requires and no others; (2) random typed trees to depth 5 over columns, literals and null with all binary and unary operators, case, in-range and ??. Each tree is evaluated by SQLite on the 675-row cross product of the value domain (NULL, -2, 0, 1, 3; 0.5, -1.5; true/false; 'a','b') and compared per row with the reference evaluation of the intended tree. non-trivial = depth >= 2, some non-NULL result, >= 2 distinct results; distinct = (source, target)",
         &[
